@@ -71,6 +71,7 @@ pub fn generate(input: TokenStream) -> TokenStream {
     for attr in &mut item.attrs {
         parser.try_parse_logos(attr);
     }
+    parser.reject_recursive_types();
 
     debug!("Iterating through subpatterns and skips");
 
